@@ -10,7 +10,7 @@ import base64
 import itertools
 import random
 
-from .. import mslab, msmodel as ms
+from .. import mslab, msmodel as ms, textgen
 from ..core import Result, split
 
 LEVEL = "exploration"
@@ -58,6 +58,12 @@ CHARS = list("abcXYZ019 ,=\"\\'@.:;/+-_~%&<>()[]{}") + ["é", "ü", "€", "名"
 
 
 def rand_text(rng, lo, hi):
+    if rng.random() < 0.4:
+        # broad character classes; NUL and the other C0 controls are outside the claim
+        t = textgen.text(rng, max(lo, 1), max(hi // 2, 1), exclude=["nul", "control", "line-break"])
+        t = "".join(ch for ch in t if ord(ch) >= 32 and ch != "\x7f")
+        if t or lo == 0:
+            return t
     return "".join(rng.choice(CHARS) for _ in range(rng.randint(lo, hi)))
 
 
